@@ -187,11 +187,43 @@ func implQuote(cs Case) ImplResult {
 		want = append(append([]byte("<blockquote>\n"), want...), "</blockquote>\n"...)
 		got := convertWith(c, cur)
 		if !bytes.Equal(got, want) {
-			res.Fails = append(res.Fails, OracleFail{"C08", "quote-prefix-not-wrapping", fmt.Sprintf("config %s depth %d: D=%q Convert(prefix(D))=%q want %q", c.Name(), k, d, got, want)})
+			clause := "quote-prefix-not-wrapping"
+			if bracketSpanCrossesLimit(d, k) {
+				// recorded finding (KNOWN_FINDINGS): parser/link.go measures the distance between the first and the last pending
+				// `[` in SOURCE offsets (linkLabelStateLength) and gives up above 998; inside a quote the markers of the lines
+				// between the two brackets are counted too, so a span just below the limit in D is above it in the quoted D
+				clause = "bracket-span-limit-counts-container-markers"
+			}
+			res.Fails = append(res.Fails, OracleFail{"C08", clause, fmt.Sprintf("config %s depth %d: D=%q Convert(prefix(D))=%q want %q", c.Name(), k, d, got, want)})
 			break
 		}
 	}
 	return res
+}
+
+// bracketSpanCrossesLimit: D has two `[` with at least one line ending between them whose distance (first bracket's start to the
+// second one's end) is at most 998 bytes in D but more than 998 once every line ending between them carries 2*depth marker bytes -
+// exactly the documents on which the arithmetic of linkLabelStateLength (parser/link.go) differs between D and the quoted D
+func bracketSpanCrossesLimit(d []byte, depth int) bool {
+	var pos []int
+	for i, c := range d {
+		if c == '[' {
+			pos = append(pos, i)
+		}
+	}
+	for a := 0; a < len(pos); a++ {
+		for b := a + 1; b < len(pos); b++ {
+			span := pos[b] + 1 - pos[a]
+			if span > 998 {
+				break
+			}
+			nl := bytes.Count(d[pos[a]:pos[b]], []byte("\n"))
+			if nl > 0 && span+2*depth*nl > 998 {
+				return true
+			}
+		}
+	}
+	return false
 }
 
 // ---------- C09 ----------
